@@ -19,8 +19,8 @@ ADV = ["adv"]
 
 CHECKS = {
     "C01": {
-        "quick": {"gen": [G("MC_C01", "MC_C01_quick.cfg")], "drive": [D("strict", 3000)], "suite": {"tests": "--test lib open_hypergraph", "ops": ["strict.compose"]}},
-        "thorough": {"gen": [G("MC_C01", "MC_C01_thorough.cfg"), G("MC_C01", "MC_C01_thorough_b.cfg")], "drive": [D("strict", 50000)], "suite": {"tests": "--test lib", "ops": ["strict.compose"], "max_nodes": 14, "max_edges": 8}},
+        "quick": {"gen": [G("MC_C01", "MC_C01_quick.cfg")], "drive": [D("strict", 3000, only=["strict.compose", "law."]), D("glue", 4000, only=["strict.compose"])], "suite": {"tests": "--test lib open_hypergraph", "ops": ["strict.compose"]}},
+        "thorough": {"gen": [G("MC_C01", "MC_C01_thorough.cfg"), G("MC_C01", "MC_C01_thorough_b.cfg")], "drive": [D("strict", 50000, only=["strict.compose", "law."]), D("glue", 100000, only=["strict.compose"])], "suite": {"tests": "--test lib", "ops": ["strict.compose"], "max_nodes": 14, "max_edges": 8}},
         "require_ops": ["strict.compose"],
     },
     "C02": {
@@ -68,7 +68,7 @@ CHECKS = {
         "require_ops": ["ic.new_ff", "ic.flatmap", "ic.map_indexes_ff", "ic.iter_ff", "ic.iter_sf", "ops.iter", "ic.flatmap_sources_ff", "ic.map_values"],
     },
     "C09": {
-        "quick": {"gen": [G("MC_Lax", "MC_C09_quick.cfg"), G("MC_Quot", "MC_Quot_quick.cfg")], "drive": [D("lax", 3000)], "suite": {"tests": "--test lib lax", "ops": ["lax.quotient"], "max_nodes": 12, "max_edges": 12}},
+        "quick": {"gen": [G("MC_Lax", "MC_C09_quick.cfg"), G("MC_Quot", "MC_Quot_quick.cfg")], "drive": [D("lax", 3000), D("glue", 3000, only=["lax.quotient", "lax.compose"])], "suite": {"tests": "--test lib lax", "ops": ["lax.quotient"], "max_nodes": 12, "max_edges": 12}},
         "thorough": {"gen": [G("MC_Lax", "MC_C09_thorough.cfg"), G("MC_Lax", "MC_C09_chains.cfg"), G("MC_Quot", "MC_Quot_thorough.cfg")], "drive": [D("lax", 50000)]},
         "require_ops": ["lax.quotient", "lax.h.quotient", "lax.h.coequalizer"],
     },
@@ -99,23 +99,23 @@ CHECKS = {
         "require_ops": ["optic.map_arrow", "optic.map_adapted", "optic.eval_adapted", "optic.laws", "laxf.optic_map_arrow", "laxf.optic_map_adapted"],
     },
     "C15": {
-        "quick": {"gen": [G("MC_C15", "MC_C15_quick.cfg"), G("MC_C15", "MC_C15_quick_b.cfg")], "drive": [D("strict", 3000)]},
-        "thorough": {"gen": [G("MC_C15", "MC_C15_thorough.cfg")], "drive": [D("strict", 50000)]},
+        "quick": {"gen": [G("MC_C15", "MC_C15_quick.cfg"), G("MC_C15", "MC_C15_quick_b.cfg"), G("MC_C15", "MC_C15_wide.cfg")], "drive": [D("graphs", 4000, only=["strict.layer", "strict.layered_operations", "hook."])]},
+        "thorough": {"gen": [G("MC_C15", "MC_C15_thorough.cfg"), G("MC_C15", "MC_C15_wide.cfg")], "drive": [D("graphs", 60000, only=["strict.layer", "strict.layered_operations", "hook."])]},
         "require_ops": ["strict.layer", "strict.layered_operations", "hook.kahn", "hook.converse", "hook.operation_adjacency", "hook.indegree"],
     },
     "C16": {
-        "quick": {"gen": [G("MC_C16", "MC_C16_quick.cfg")]},
-        "thorough": {"gen": [G("MC_C16", "MC_C16_thorough.cfg")]},
+        "quick": {"gen": [G("MC_C16", "MC_C16_quick.cfg")], "drive": [D("graphs", 4000, only=["strict.eval"])]},
+        "thorough": {"gen": [G("MC_C16", "MC_C16_thorough.cfg")], "drive": [D("graphs", 60000, only=["strict.eval"])]},
         "require_ops": ["strict.eval"],
     },
     "C17": {
-        "quick": {"gen": [G("MC_C15", "MC_C17_quick.cfg")], "drive": [D("strict", 3000)], "profiles": ["debug", "release"]},
-        "thorough": {"gen": [G("MC_C15", "MC_C17_thorough.cfg")], "drive": [D("strict", 50000)], "profiles": ["debug", "release"]},
+        "quick": {"gen": [G("MC_C15", "MC_C17_quick.cfg"), G("MC_C15", "MC_C15_wide.cfg")], "drive": [D("graphs", 3000, only=["strict.is_", "hyper.", "hook.node_adjacency"])], "profiles": ["debug", "release"]},
+        "thorough": {"gen": [G("MC_C15", "MC_C17_thorough.cfg"), G("MC_C15", "MC_C15_wide.cfg")], "drive": [D("graphs", 50000, only=["strict.is_", "hyper.", "hook.node_adjacency"])], "profiles": ["debug", "release"]},
         "require_ops": ["strict.is_acyclic", "strict.is_monogamous", "hyper.in_degree", "hyper.out_degree", "hyper.is_acyclic"],
     },
     "C18": {
-        "quick": {"gen": [G("MC_C18", "MC_C18_quick.cfg")]},
-        "thorough": {"gen": [G("MC_C18", "MC_C18_thorough.cfg")]},
+        "quick": {"gen": [G("MC_C18", "MC_C18_quick.cfg")], "drive": [D("graphs", 4000, only=["arrow."])]},
+        "thorough": {"gen": [G("MC_C18", "MC_C18_thorough.cfg")], "drive": [D("graphs", 60000, only=["arrow."])]},
         "require_ops": ["arrow.new", "arrow.is_monomorphism", "arrow.is_convex_subgraph"],
     },
     "C19": {
